@@ -901,6 +901,9 @@ func record(out string, episodes int) {
 					continue
 				}
 				rc.emit(&event{Ev: "ro", T: tc.name, Op: "Pack", X: x, Xs: []int{x}}, objs, buf)
+				if _, err := tc.unpack(nb); err != nil {
+					continue // a variant the library packs but does not read back: not an Unpack input
+				}
 				keep = append(keep, buf)
 				buf, valid = nb, true
 				rc.emit(&event{Ev: "newbuf", T: tc.name, X: x}, objs, buf)
